@@ -112,6 +112,7 @@ func (c *CheckCtx) addScan() {
 		c.Extra = append(c.Extra, &Obligation{Name: "internal/scanner.(*Lexer).Lex/subset/scanner-engine", Class: "subset", Status: "unknown", Solver: "generator", Output: "the scanner engine could not process Lex: " + err.Error()})
 		return
 	}
+	c.ExtraFuncs = append(c.ExtraFuncs, "internal/scanner.(*Lexer).Lex (E-SCAN)")
 	se.buildRegions(16)
 	for _, ct := range se.order {
 		if ct.region.err != "" {
